@@ -1,6 +1,7 @@
 import Martian.Props.C02.Facts
 import Martian.Props.C02.SemFacts
 import Martian.Props.C02.ErrorValues
+import Martian.Props.C02.ContextFlags
 import Martian.Lemmas.Proxy
 import Martian.Lemmas.ProxyTrace
 import Martian.Lemmas.ProxyState
